@@ -18,6 +18,12 @@ def scens(ctx, n, files=(1,)):
         s['faults'] = {}
         s['consts'] = {}
         s['cfg'] = {'cacheOn': True, 'silent': True}
+        if not s.get('contract'):
+            # a pass outside C02's contract (e.g. STOP before the end of the enumeration) makes run_pass depend on the
+            # schedule whatever the cache does: such passes are paired under the sequential schedule only
+            s['N'] = 1
+            s['p_done'] = 1.0
+            s['wait_policy'] = 'first'
         # make a pass meet the same content again: repeat passes across groups
         m = s['groups']['main']
         s['groups']['last'] = list(s['groups']['last']) + [m[0]]
